@@ -6,6 +6,7 @@ import (
 	"strconv"
 	"strings"
 
+	"verif/internal/xdoc"
 	"verif/internal/xgen"
 	"verif/internal/xref"
 )
@@ -27,6 +28,7 @@ func init() {
 		Families: []Family{
 			witnessFamily("C08"),
 			{Name: "grid", N: func(string) int { return 5 }, Run: c08Grid},
+			{Name: "sums", N: func(string) int { return len(c08SumValues)*len(c08SumCounts) + 400 }, Run: c08Sums},
 			{Name: "big", N: bigN("C08"), Run: bigRun("C08")},
 			{Name: "rand", N: tierN(250000, 10000000), Run: c08Random},
 		},
@@ -406,4 +408,111 @@ func c09Long(c *Case) {
 		}
 	}
 	c.Sample(map[string]interface{}{"family": "long", "length": n})
+}
+
+// c08Sums: sum() is the IEEE 754 double sum of the converted string-values. XPath leaves the order of the additions
+// open, so the oracle is used only where it does not matter: k EQUAL decimal fractions (0.1 ten times is
+// 0.9999999999999999, not 1), k = 3 ... 1100, and small mixed sets for which EVERY order of addition gives the same
+// double (all permutations are tried by the harness). A compensated or pairwise summation, a float32 or decimal
+// accumulator differ from every order.
+var c08SumValues = []string{"0.1", "0.2", "0.3", "0.7", "1.1", "19.99", "0.01", "1000000.1", "-0.1", "2.675", "33.33", "0.000001"}
+var c08SumCounts = []int{3, 4, 5, 6, 7, 8, 9, 10, 11, 12, 20, 50, 100, 300, 1100}
+
+func c08Sums(c *Case) {
+	var vals []string
+	if c.Index < len(c08SumValues)*len(c08SumCounts) {
+		v, k := c08SumValues[c.Index%len(c08SumValues)], c08SumCounts[c.Index/len(c08SumValues)]
+		for i := 0; i < k; i++ {
+			vals = append(vals, v)
+		}
+		c.Count("sums:equal-values")
+	} else {
+		g := c.G()
+		pool := append(append([]string(nil), c08SumValues...), "1", "2", "0.5", "0.25", "100", "-3", "1e3", "x", "")
+		k := 3 + g.Intn(4)
+		for i := 0; i < k; i++ {
+			vals = append(vals, pool[g.Intn(len(pool))])
+		}
+		var fs []float64
+		for _, v := range vals {
+			if f := xref.StrToNumber(v); !math.IsNaN(f) {
+				fs = append(fs, f)
+			} else {
+				c.Skip("sum() over a non-numeric node (outside the quantifier)")
+				return
+			}
+		}
+		if !sumOrderIndependent(fs) {
+			c.Skip("the double sum of this set depends on the order of the additions (XPath leaves the order open)")
+			return
+		}
+		c.Count("sums:mixed-order-independent")
+	}
+	d := xdoc.NewDoc()
+	r := d.Root.AddElem("", "r", "")
+	for i, v := range vals {
+		e := r.AddElem("", "v", "")
+		e.AddText(v)
+		e.AddAttr("", "a", "", v)
+		if i%3 == 1 {
+			r.AddText(" ")
+		}
+	}
+	d.Finish()
+	for _, src := range []string{"sum(/r/v)", "sum(/r/v/@a)", "sum(v)", "sum(/r/v) div count(/r/v)", "sum(/r/v) - sum(/r/v/@a)", "string(sum(/r/v))", "sum(/r/v) = sum(/r/v/@a)", "floor(sum(/r/v) * 1000)", "sum(/r/v | /r/v/@a)", "sum(/r/v[position() <= 3])"} {
+		if strings.Contains(src, "string(") && len(vals) > 12 {
+			continue // string() of a number is stated below one million only
+		}
+		equal := c.Index < len(c08SumValues)*len(c08SumCounts)
+		if (src == "sum(/r/v | /r/v/@a)" || src == "sum(/r/v[position() <= 3])") && (!equal || len(vals) > 12) {
+			continue // other sets of numbers than the one whose order-independence was established
+		}
+		if _, ok := c.scalarCheck(mustParse(src), r, "ABORT"); !ok {
+			return
+		}
+	}
+	c.Nontrivial(fmt.Sprintf("sums|%d|%v", c.Index, len(vals)))
+	c.SampleEvery(17, func() interface{} {
+		show := vals
+		if len(show) > 8 {
+			show = show[:8]
+		}
+		return map[string]interface{}{"family": "sums", "values": show, "count": len(vals)}
+	})
+}
+
+// sumOrderIndependent tries every order of addition of at most 6 numbers.
+func sumOrderIndependent(fs []float64) bool {
+	if len(fs) > 6 {
+		return false
+	}
+	first, init := 0.0, false
+	idx := make([]int, len(fs))
+	for i := range idx {
+		idx[i] = i
+	}
+	var rec func(k int) bool
+	rec = func(k int) bool {
+		if k == len(idx) {
+			s := 0.0
+			for _, i := range idx {
+				s += fs[i]
+			}
+			if !init {
+				first, init = s, true
+				return true
+			}
+			return SameNumber(s, first)
+		}
+		for i := k; i < len(idx); i++ {
+			idx[k], idx[i] = idx[i], idx[k]
+			ok := rec(k + 1)
+			idx[k], idx[i] = idx[i], idx[k]
+			if !ok {
+				return false
+			}
+		}
+		return true
+	}
+	return rec(0)
 }
